@@ -1,6 +1,6 @@
 (* Properties/C03.v — gradual performance equals performance of the partial play. *)
 From Coq Require Import ZArith List Bool.
-From V Require Import F64 Gradual GradualProofs GradPerf GradPerfProofs.
+From V Require Import F64 Gradual GradualProofs GradPerf GradPerfProofs TaikoProofs.
 Import ListNotations.
 Open Scope Z_scope.
 
@@ -38,6 +38,18 @@ Theorem C03_mania : forall (S : Type) (process : S -> Z -> S) (s0 : S) (St P : T
   = spec_pops perf (poneshots (mania_oneshot S process s0 objs) (zlen objs)) ops.
 Proof. exact mania_gperf_refines. Qed.
 Print Assumptions C03_mania.
+
+(* taiko (after the fix 8d6162b): the same statement; passed_objects counts hits, the spec walks
+   [(i, one-shot i)] for i = 1..hits *)
+Theorem C03_taiko : forall (S : Type) (process : S -> Z -> S) (s0 : S) (flags : list bool),
+  zlen flags < 18446744073709551616 ->
+  forall (St P : Type) (perf : Z * S -> Z -> St -> P) (ops : list (pop St)),
+  Forall (fun o => match o with PNth _ n => 0 <= n | _ => True end) ops ->
+  run_pops (taiko_nth S process flags) (taiko_len S flags) (@tg_idx S) perf ops (taiko_new S s0)
+  = spec_pops perf (indexed S (map (taiko_oneshot S process s0 flags)
+                                   (zrange 1 (Z.to_nat (taiko_total_hits flags))))) ops.
+Proof. intros S process s0 flags H St P perf ops Hops. exact (taiko_gperf_refines S process s0 flags H perf ops Hops). Qed.
+Print Assumptions C03_taiko.
 
 (* one call from any reachable state: min(n+1, remaining) objects are processed, the
    passed_objects value handed on is the new position, None exactly when nothing remains *)
